@@ -350,7 +350,14 @@ def execute(world, op, dry=False):
         world.objs.append(None)
         return {"tags": [], "raised": None, "ret": None, "new": len(world.objs) - 1}
     if name == "doc":
-        fn = lambda: odml.Document()
+        dextra = dict(op[1]) if len(op) > 1 and op[1] else {}
+        if "oid" in dextra:
+            tags.append("oid-canonical" if canonical_id(dextra["oid"]) else "oid-noncanonical")
+        for dk in ("date", "version", "author"):
+            if dk in dextra:
+                dextra[dk] = dec(dextra[dk])
+                tags.append("with-" + dk)
+        fn = lambda: odml.Document(**dextra)
         new = True
     elif name == "sec":
         _, nm, typ, parent, extra = op
@@ -592,7 +599,8 @@ def execute(world, op, dry=False):
         _, obj, attr, val = op
         x = g(obj)
         val = dec(val)
-        tags = [attr]
+        tags = [attr, "was-set" if getattr(x, "__dict__", {}).get("_" + attr, getattr(x, "__dict__", {}).get(attr)) is not None
+                else "was-unset"]
 
         def fn():
             setattr(x, attr, val)
